@@ -942,6 +942,10 @@ def _graph_unflatten(
         variable.update_from_state(value)
       else:
         variable.raw_value = value
+        # the metadata travels in the graph definition: keep edits made to it
+        object.__setattr__(
+          variable, '_var_metadata', dict(variabledef.metadata)
+        )
     else:  # variabledef.index not in index_ref_cache
       # variable reference does not exist outside, create a new one
       if isinstance(value, Variable):
